@@ -576,6 +576,22 @@ func (h *hist) checkShares(op opSpec, eon corekeyperdatabase.Eon, msg *p2pmsg.De
 				op.TSet, op.UBlk, id, other, why, detail), op, nil)
 		}
 	}
+	if op.Derived && msg.Eon <= math.MaxInt64 && (!op.HasTSet || int64(msg.Eon) == op.TSet) {
+		// Every identity of the message must be an identity of the keyper set the message names:
+		// a share for (set B, identity) where the identity is registered only for another set A
+		// is a share contributed for A's identity outside A's release condition.
+		here := int64(msg.Eon)
+		for _, l := range op.Ids {
+			id := idBytes(l)
+			if _, _, _, found := h.justifyIn(id, op.UBlk, h.lastN, h.lastT, &here, false); found {
+				continue
+			}
+			if why, detail, _, elsewhere := h.justifyIn(id, op.UBlk, h.lastN, h.lastT, nil, false); elsewhere {
+				h.violate("share-for-identity-of-other-set", fmt.Sprintf("key shares for keyper set %d contain identity %x, which is registered only for another keyper set (%s: %s)",
+					msg.Eon, id, why, detail), op, nil)
+			}
+		}
+	}
 	if uint64(eon.KeyperConfigIndex) != msg.Eon {
 		h.violate("share-wrong-set", fmt.Sprintf("key shares name keyper set %d but the eon used (%d) belongs to set %d", msg.Eon, eon.Eon, eon.KeyperConfigIndex), op, nil)
 	}
